@@ -11,7 +11,7 @@ META = {
                    "try_deserialize_record slices at RecordHeader::SIZE, from_record reads SIZE+1 bytes, both behind a length test; "
                    "(3) no panic-capable construct is reachable from the record decoders; (4) Chunk's Deserialize constructs only through "
                    "Chunk::new and no other Chunk{..} literal exists in the workspace, so a decoded chunk's address is recomputed. "
-                   "Not decided: value-level round trip of serde-derived payloads and messages.",
+                   "Also: the header is encoded and decoded with rmp_serde's default configuration (its 2-byte size depends on it); panic reachability follows format_args! arguments to the Debug/Display impls of the argument's type closure. Not decided: value-level round trip of serde-derived payloads and messages.",
     "not_decided": ["value round trip of serde-derived records and request/response messages (serde / rmp-serde behaviour)"],
     "trusted": ["rmp-serde encodes a struct of one u32<128 as [0x91, tag]"],
 }
